@@ -55,7 +55,7 @@ type gen struct {
 func main() {
 	flag.Parse()
 	seed := vh.SeedFromEnv()
-	rep := vh.NewReport("C18", *tier, seed, "T3: random registries (aliases/media types/extensions/magic rules over 5 types, shadowing and suffix-overlapping keys included) and the real registry with every alias/identifier/media type/extension, case variants, double extensions and 15 probe documents; adapter and label runs over labelled, anonymous and foreign blank nodes; option plumbing: random --out-param lists (the words of strconv.ParseBool incl. rejected ones, implied values, repeated and unknown keys, prefix lists mixing rdfa-context / none / user prefixes / malformed entries) × 6 encoder bases × statements over IRIs inside and outside the RDFa-context namespaces and near the base, numeric/boolean shorthand literals, handed to the real encoder managers of the four targets (for sorted or nested Turtle output and RDF/JSON only labelled nodes, for unbuffered nested output one subject: fresh UUID texts / Go's map order would decide the section order). E2E: documents of 8 source formats (library encoders on random datasets, serialisers for TriG/RDF-XML/JSON-LD/HTML+RDFa, hand-written templates with anonymous nodes and collections, W3C suite documents) × 4 targets × parameters × type given by alias, identifier, extension, sniffing, HTTP media type, stdin. Non-trivial = T3 line with a non-empty type/media/magic/name or statement list; E2E case whose source is non-empty and whose output was compared")
+	rep := vh.NewReport("C18", *tier, seed, "T3: random registries (aliases/media types/extensions/magic rules over 5 types, shadowing and suffix-overlapping keys included) and the real registry with every alias/identifier/media type/extension, case variants, double extensions and 15 probe documents; adapter and label runs over labelled, anonymous and foreign blank nodes; option plumbing: random --out-param lists (the words of strconv.ParseBool incl. rejected ones, implied values, repeated and unknown keys, prefix lists mixing rdfa-context / none / user prefixes / malformed entries) × 6 encoder bases × statements over IRIs inside and outside the RDFa-context namespaces and near the base, numeric/boolean shorthand literals, handed to the real encoder managers of the four targets (for sorted or nested Turtle output and RDF/JSON only labelled nodes, for unbuffered nested output one subject: fresh UUID texts / Go's map order would decide the section order). E2E: documents of 8 source formats (library encoders on random datasets, serialisers for TriG/RDF-XML/JSON-LD/HTML+RDFa, hand-written templates with anonymous nodes and collections, W3C suite documents) × 4 targets × parameters × type given by alias, identifier, extension, sniffing, HTTP media type, stdin; one case in eight from the targeted families of miss.go (nearbase: data IRIs = part of the encoder base + remainder class; pnlocal: covered namespaces × composed local names; big: > 2^12 … > 2^16 unlabelled nodes mentioned before and after their descendants; histograms fam:*). Non-trivial = T3 line with a non-empty type/media/magic/name or statement list; E2E case whose source is non-empty and whose output was compared")
 	g := &gen{r: vh.NewRng(seed), seed: seed, rep: rep, knownSeen: map[string]int{}}
 	fs, err := vh.LoadFindings(*findings)
 	if err != nil {
@@ -89,6 +89,9 @@ func main() {
 	}
 	if g.server, err = startServer(); err != nil {
 		fail("cannot listen on 127.0.0.1: " + err.Error())
+	}
+	if err := bigIsoSelfTest(); err != nil {
+		fail("self-test of the large-dataset comparator: " + err.Error())
 	}
 	g.corpus = loadCorpus(repoRoot())
 	initEncoderSelfNames()
